@@ -82,6 +82,50 @@ theorem foldl_slashOne_le (l : List Nat) (m : Map Oracle) : onlinePower (l.foldl
   | nil => simp
   | cons o r ih => exact Nat.le_trans (ih (slashOne m o)) (slashOne_le m o)
 
+/-! ## `applyRefresh` only touches the recorded total -/
+
+theorem applyRefresh_eq (r : RefreshRule) (pos : Bool) (old s' : State) :
+    ∃ t, applyRefresh r pos old s' = { s' with lastTotalPower := t } := by
+  cases r
+  · exact ⟨_, rfl⟩
+  · exact ⟨_, rfl⟩
+  · cases pos
+    · exact ⟨s'.lastTotalPower, rfl⟩
+    · exact ⟨_, rfl⟩
+  · exact ⟨s'.lastTotalPower, rfl⟩
+  · exact ⟨s'.lastTotalPower, rfl⟩
+
+section
+variable (r : RefreshRule) (pos : Bool) (old s' : State)
+@[simp] theorem applyRefresh_oracles : (applyRefresh r pos old s').oracles = s'.oracles := by
+  obtain ⟨t, h⟩ := applyRefresh_eq r pos old s'; rw [h]
+@[simp] theorem applyRefresh_byBridger : (applyRefresh r pos old s').byBridger = s'.byBridger := by
+  obtain ⟨t, h⟩ := applyRefresh_eq r pos old s'; rw [h]
+@[simp] theorem applyRefresh_byExt : (applyRefresh r pos old s').byExt = s'.byExt := by
+  obtain ⟨t, h⟩ := applyRefresh_eq r pos old s'; rw [h]
+@[simp] theorem applyRefresh_proposal : (applyRefresh r pos old s').proposal = s'.proposal := by
+  obtain ⟨t, h⟩ := applyRefresh_eq r pos old s'; rw [h]
+@[simp] theorem applyRefresh_params : (applyRefresh r pos old s').params = s'.params := by
+  obtain ⟨t, h⟩ := applyRefresh_eq r pos old s'; rw [h]
+@[simp] theorem applyRefresh_lastObserved : (applyRefresh r pos old s').lastObserved = s'.lastObserved := by
+  obtain ⟨t, h⟩ := applyRefresh_eq r pos old s'; rw [h]
+@[simp] theorem applyRefresh_lastNonce : (applyRefresh r pos old s').lastNonce = s'.lastNonce := by
+  obtain ⟨t, h⟩ := applyRefresh_eq r pos old s'; rw [h]
+@[simp] theorem applyRefresh_atts : (applyRefresh r pos old s').atts = s'.atts := by
+  obtain ⟨t, h⟩ := applyRefresh_eq r pos old s'; rw [h]
+@[simp] theorem applyRefresh_pending : (applyRefresh r pos old s').pending = s'.pending := by
+  obtain ⟨t, h⟩ := applyRefresh_eq r pos old s'; rw [h]
+@[simp] theorem applyRefresh_observedLog : (applyRefresh r pos old s').observedLog = s'.observedLog := by
+  obtain ⟨t, h⟩ := applyRefresh_eq r pos old s'; rw [h]
+@[simp] theorem applyRefresh_executedLog : (applyRefresh r pos old s').executedLog = s'.executedLog := by
+  obtain ⟨t, h⟩ := applyRefresh_eq r pos old s'; rw [h]
+@[simp] theorem applyRefresh_retired : (applyRefresh r pos old s').retired = s'.retired := by
+  obtain ⟨t, h⟩ := applyRefresh_eq r pos old s'; rw [h]
+end
+
+/-- the placement the theorems about the recorded total need: recomputed unconditionally after the record is stored -/
+theorem applyRefresh_afterStore (pos : Bool) (old s' : State) : applyRefresh .afterStore pos old s' = refresh s' := rfl
+
 /-! ## tally -/
 
 theorem tally_ge (m : Map Oracle) (req : Nat) (vs : List Nat) (acc : Nat) (h : tally m req vs acc = true) :
@@ -470,17 +514,17 @@ theorem totalOk_step (s : State) (op : Op) (hT : TotalOk s) : TotalOk (step s op
     simp only [step]
     rw [this.1, this.2.1]; exact hT
   | bond o b e a d =>
+    have hr : bondRefreshRule = .afterStore := by decide
     simp only [step]
     unfold bondStep
     repeat' split
-    all_goals first | exact hT | simp [refresh] | skip
-    all_goals (rename_i hr; simp [refreshOnBond] at hr)
+    all_goals first | exact hT | simp [hr, applyRefresh, refresh]
   | addDelegate o a d =>
+    have hr : addDelegateRefreshRule = .afterStore := by decide
     simp only [step]
     unfold addDelegateStep addDelegateTo
     repeat' split
-    all_goals first | exact hT | simp [refresh] | skip
-    all_goals (rename_i hr; simp [refreshOnAddDelegate] at hr)
+    all_goals first | exact hT | simp [hr, applyRefresh, refresh]
   | editBridger o b =>
     simp only [step]
     unfold editBridgerStep
@@ -691,10 +735,10 @@ theorem binv_step (s : State) (op : Op) (hB : BInv s) : BInv (step s op).1 := by
     repeat' split
     all_goals first | exact hB | skip
     all_goals
-      rename_i hno _ _ _ _ _ _
+      rename_i hno _ _ _ _ _
       have hno' : s.oracles.get o = none := by simpa using hno
       intro b' a' hg
-      simp only [refresh] at hg ⊢
+      simp only [applyRefresh_byBridger, applyRefresh_oracles] at hg ⊢
       by_cases hb : b = b'
       · subst hb
         rw [get_set_self] at hg; cases hg
@@ -708,8 +752,8 @@ theorem binv_step (s : State) (op : Op) (hB : BInv s) : BInv (step s op).1 := by
     repeat' split
     all_goals first | exact hB | skip
     all_goals
-      rename_i orc hg _ _ _ _ _
-      exact binv_of_BP (s := s) rfl (BP_set s.oracles o orc _ hg rfl) hB
+      rename_i orc hg _ _ _ _
+      exact binv_of_BP (s := s) (by simp) (by simp only [applyRefresh_oracles]; exact BP_set s.oracles o orc _ hg rfl) hB
   | editBridger o b =>
     simp only [step]; unfold editBridgerStep
     repeat' split
@@ -1039,7 +1083,7 @@ theorem vinv_step (s : State) (op : Op) (hop : opOk s op = true) (hV : VInv s) :
     have := hV.r1 r hr
     unfold bondStep
     repeat' split
-    all_goals first | exact this | (simp only [refresh]; rw [get_set_ne _ _ _ _ hne]; exact this)
+    all_goals first | exact this | (simp only [applyRefresh_oracles]; rw [get_set_ne _ _ _ _ hne]; exact this)
   | addDelegate o a d =>
     simp only [step]
     refine vinv_frame (core_atts (addDelegate_core s o a d).1) (addDelegate_core s o a d).2 (addDelegate_retired s o a d) ?_ hV
@@ -1047,7 +1091,8 @@ theorem vinv_step (s : State) (op : Op) (hop : opOk s op = true) (hV : VInv s) :
     repeat' split
     all_goals first | exact NoNew_refl _ | skip
     all_goals
-      rename_i orc hg _ _ _ _ _
+      rename_i orc hg _ _ _ _
+      simp only [applyRefresh_oracles]
       exact NoNew_set s.oracles o orc _ hg
   | editBridger o b =>
     simp only [step]
